@@ -132,6 +132,11 @@ def analyse(run: Any, expects: Dict[tuple, Expect], retire_probe: bool = True) -
     elif run.status == "stepcap":
         V.append(viol("livelock", f"step cap exceeded: {run.detail}", tags=["stepcap"]))
     V.extend(run.audit_violations)
+    if run.build_error is not None:
+        e = run.build_error
+        V.append(viol("build_raise", f"building the program raised {type(e).__name__}: {str(e)[:300]}",
+                      tags=["exc:" + type(e).__name__], exc_type=type(e).__name__, exc_msg=str(e)[:300]))
+        return V
 
     # ---- split events by execution token
     toks: Dict[int, ExecAnalysis] = {}
